@@ -28,6 +28,8 @@ typedef struct rd {
 	uint64_t  init_head;    /* writer's head when the reader was initialised */
 	uint64_t  resync_head;  /* stream offset of the writer's head when that report was made: nothing written later may be skipped */
 	uint64_t  reads, bytes;
+	int       loss_pending; /* the previous call on this cursor reported a loss ... */
+	uint64_t  loss_wgen;    /* ... when the writer stood here */
 } rd;
 
 static r_buf_p  RBUF;
@@ -36,6 +38,7 @@ static uint8_t  g_isstart[RB_MAXSZ];   /* this ring byte is the first data byte 
 static uint64_t S_off;          /* stream offset of the next byte to be committed */
 static uint64_t g_round_start;  /* stream offset of the first byte written after the last wrap */
 static int      g_committed;
+static uint64_t g_wgen;          /* counts writer steps (get, commit): a reader told about a loss is resynchronised, so nothing more can be lost until the writer moves */
 static rd       RD[RB_READERS];
 static iovec_t  g_iov[IOVN];
 static int      g_variable, g_set2;
@@ -72,6 +75,7 @@ static int w_get(const item_t *it, int b) {
 		if (item_get(it, "small", 0)) want = g_minb + ((x >> 20) % 3);
 		if (want > g_size) want = g_size;
 	} else want = g_B;
+	g_wgen++;
 	avail = r_buf_wbuf_get(RBUF, want, &buf);
 	if (avail == 0) { sim_violation("rb-writer", "r_buf_wbuf_get(%zu) returned no space in a ring of %zu bytes", want, g_size); return -1; }
 	if (!in_ring(buf, avail)) { sim_violation("rb-range", "r_buf_wbuf_get handed out a region [%p,+%zu) outside the ring storage", (void *)buf, avail); return -1; }
@@ -102,7 +106,7 @@ static void w_commit(void) {
 	if (0 != rc) { sim_violation("rb-writer", "committing a block of %zu bytes (leading offset %zu, %zu available) failed with %d", len, off, avail, rc); return; }
 	if (off) sim_probe("c19.frag_commit");
 	S_off += len;
-	g_committed++;
+	g_committed++; g_wgen++;
 }
 
 static void writer_step(const item_t *it) {
@@ -140,6 +144,21 @@ static void reader_fail_or_known(rd *r, int id, size_t rpos_round_before, uint64
 	sim_violation(cls, "%s", msg);
 }
 
+/* "a reader that fell behind far enough to be overwritten is resynchronised": the call that reports the loss puts the
+ * cursor where the writer is, so the very next call - the writer not having moved - has nothing to report. A cursor
+ * that is told about the same loss again and again is not resynchronised (and the reported amounts no longer add up
+ * to what was skipped). */
+static int loss_again(rd *r, int id, size_t drop, const char *fn) {
+	if (!drop) { r->loss_pending = 0; return 0; }
+	if (r->loss_pending && r->loss_wgen == g_wgen) {
+		sim_violation("rb-not-resynchronised", "reader %d: %s reports %zu dropped byte(s) although the previous call on this cursor had already reported a loss and the writer has not moved since: the cursor was left where it was (index %zu, round %zu; writer index %zu, round %zu)", id, fn, drop,
+		    r->rpos.iov_index, r->rpos.round_num, RBUF->iov_index, RBUF->round_num);
+		return 1;
+	}
+	r->loss_pending = 1; r->loss_wgen = g_wgen;
+	return 0;
+}
+
 static void reader_step(const item_t *it) {
 	int id = (int)item_get(it, "id", 0) % RB_READERS;
 	rd *r = &RD[id];
@@ -149,7 +168,7 @@ static void reader_step(const item_t *it) {
 	if (!r->inited || item_get(it, "reinit", 0)) {
 		size_t back = (size_t)item_get(it, "back", 0);
 		if (0 != r_buf_rpos_init(RBUF, &r->rpos, back)) { sim_violation("rb-reader", "r_buf_rpos_init failed"); return; }
-		r->inited = 1; r->synced = 0; r->drop_told = 0;
+		r->inited = 1; r->synced = 0; r->drop_told = 0; r->loss_pending = 0;
 		r->fresh = 1; r->init_head = S_off;   /* a reader that joins now is owed everything committed from now on */
 		sim_probe("c19.rpos_init");
 		if (item_get(it, "reinit", 0)) return;
@@ -168,6 +187,7 @@ static void reader_step(const item_t *it) {
 	if (g_kf_pre) sim_probe("c19.kf1_precondition");
 	avail = r_buf_data_avail_size(RBUF, &r->rpos, &drop);
 	if (drop) { r->drop_told = 1; r->resync_head = S_off; sim_probe("c19.drop_reported"); }
+	if (loss_again(r, id, drop, "r_buf_data_avail_size")) return;
 	{
 		size_t lag_rounds = RBUF->round_num - round_before;
 		if (lag_rounds == 1) sim_probe("c19.reader_one_round_behind");
@@ -190,6 +210,7 @@ static void reader_step(const item_t *it) {
 		if (g_iov[i].iov_base != (uint8_t *)(uintptr_t)0xC0FFEE || g_iov[i].iov_len != 0xC0FFEE) { sim_violation("rb-reader", "reader %d: r_buf_data_get wrote behind the caller's array of %zu regions", id, iovn); return; }
 	if (nio > iovn) { sim_violation("rb-reader", "reader %d: r_buf_data_get returned %zu regions for an array of %zu", id, nio, iovn); return; }
 	if (drop2) { r->drop_told = 1; r->resync_head = S_off; sim_probe("c19.drop_reported"); }
+	if (loss_again(r, id, drop2, "r_buf_data_get")) return;
 	sim_log("reader %d: avail=%zu drop=%zu | get lim=%zu -> nio=%zu got=%zu drop2=%zu rpos(idx=%zu off=%zu round=%zu)", id, avail, drop, lim, nio, got, drop2, r->rpos.iov_index, r->rpos.iov_off, r->rpos.round_num);
 	if (nio > IOVN) { sim_violation("rb-reader", "r_buf_data_get returned %zu regions for an array of %d", nio, IOVN); return; }
 	for (size_t i = 0; i < nio; i++) {
@@ -339,7 +360,7 @@ static void c19_gen(plan_t *p, rng_t *r, int tier) {
 static void c19_pre(const plan_t *p) {
 	(void)p;
 	RBUF = NULL;
-	S_off = 0; g_round_start = 0; g_committed = 0;
+	S_off = 0; g_round_start = 0; g_committed = 0; g_wgen = 0;
 	memset(&g_pend, 0, sizeof(g_pend));
 	memset(RD, 0, sizeof(RD));
 	for (int i = 0; i < RB_MAXSZ; i++) g_shadow[i] = GAP;
